@@ -208,4 +208,138 @@ def PStmt.usesActions : PStmt → Bool
   | .retBlock b => b.usesActions
   | _ => false
 
+
+/-! ## the interfaces' own `enable()` / `disable()` (`WiredNetworkInterface`, `IPWiredNetworkInterface`,
+`WirelessNetworkInterface`, `IPWirelessNetworkInterface`), translated statement by statement as well.
+
+An interface method sees the interface itself, whether it sits in a node (`_connected_node` may be `None`), that node's power
+state, whether a link is attached (`_connected_link` may be `None`), and its own LOCAL VARIABLES (numbered by the translator).
+Python notions kept: a statement that dereferences `self._connected_node.` / `self._connected_link.` RAISES when that is `None`
+(so "never raises" is a theorem, not an assumption), `and` / `or` short-circuit (the right operand is not evaluated, hence
+cannot raise), a local variable holds what the call answered (`None` included) and reading an unassigned one raises,
+`super().enable()` runs the translated body of the next class in the MRO in its own scope. -/
+
+structure IfCtx where
+  nic : Nic
+  hasNode : Bool
+  nodeSt : PState
+  /-- `hasattr(self._connected_node, "default_gateway_hello")` when there is a node -/
+  hello : Bool
+  locals : List (Nat × Option Bool) := []
+deriving Repr, DecidableEq
+
+inductive IBExpr
+  | lit (b : Bool)
+  | enabled                      -- `self.enabled`
+  | node                         -- `self._connected_node` (a Node is truthy, `None` is not)
+  | link                         -- `self._connected_link`
+  | nodeStIs (s : PState)        -- `self._connected_node.operating_state == NodeOperatingState.<s>`: dereferences the node
+  | nodeHasHello                 -- `hasattr(self._connected_node, "default_gateway_hello")` (`hasattr(None, …)` is False)
+  | var (x : Nat)                -- a local variable
+  | not (b : IBExpr)
+  | and (a b : IBExpr)
+  | or (a b : IBExpr)
+deriving Repr, DecidableEq
+
+inductive IStmt
+  | skip                          -- `_LOGGER.…`, docstring, `pass`, `self.airspace.add/remove_wireless_interface(self)`
+  | seq (a b : IStmt)
+  | ite (c : IBExpr) (t e : IStmt)
+  | setEnabled (b : IBExpr)
+  | assign (x : Nat) (b : IBExpr)
+  | ret (b : IBExpr)
+  | retVar (x : Nat)              -- `return x`: the value as it is (`None` stays `None`)
+  | retNone
+  | useNode                       -- any other statement that mentions `self._connected_node.`: raises when there is no node
+  | useLink                       -- … `self._connected_link.` (endpoint_up / endpoint_down)
+  | superCall (x : Option Nat)    -- `super().enable()` as a statement / `x = super().enable()`
+  | retSuper                      -- `return super().enable()`
+deriving Repr, DecidableEq
+
+/-- `none` = raised -/
+def IBExpr.eval (c : IfCtx) : IBExpr → Option Bool
+  | .lit b => some b
+  | .enabled => some c.nic.enabled
+  | .node => some c.hasNode
+  | .link => some c.nic.linked
+  | .nodeStIs s => if c.hasNode then some (stEq c.nodeSt s) else none
+  | .nodeHasHello => some (c.hasNode && c.hello)
+  | .var x => match c.locals.find? (fun p => p.1 == x) with
+    | some p => some (p.2.getD false)
+    | none => none
+  | .not b => (b.eval c).map (!·)
+  | .and a b => match a.eval c with
+    | some true => b.eval c
+    | r => r
+  | .or a b => match a.eval c with
+    | some false => b.eval c
+    | r => r
+
+inductive IRet
+  | running
+  | returned (v : Option Bool)
+  | raised
+deriving Repr, DecidableEq
+
+def setLocal (c : IfCtx) (x : Nat) (v : Option Bool) : IfCtx :=
+  { c with locals := (x, v) :: c.locals.filter (fun p => p.1 != x) }
+
+/-- what a finished call is: the interface afterwards and `some answer` (`none` = it raised) -/
+abbrev IOut := Nic × Option (Option Bool)
+
+def execI (sup : IfCtx → IOut) : IStmt → IfCtx → IfCtx × IRet
+  | .skip, c => (c, .running)
+  | .seq a b, c => match execI sup a c with
+    | (c', .running) => execI sup b c'
+    | r => r
+  | .ite g t e, c => match g.eval c with
+    | none => (c, .raised)
+    | some true => execI sup t c
+    | some false => execI sup e c
+  | .setEnabled b, c => match b.eval c with
+    | none => (c, .raised)
+    | some v => ({ c with nic := { c.nic with enabled := v } }, .running)
+  | .assign x b, c => match b.eval c with
+    | none => (c, .raised)
+    | some v => (setLocal c x (some v), .running)
+  | .ret b, c => match b.eval c with
+    | none => (c, .raised)
+    | some v => (c, .returned (some v))
+  | .retVar x, c => match c.locals.find? (fun p => p.1 == x) with
+    | some p => (c, .returned p.2)
+    | none => (c, .raised)
+  | .retNone, c => (c, .returned none)
+  | .useNode, c => if c.hasNode then (c, .running) else (c, .raised)
+  | .useLink, c => if c.nic.linked then (c, .running) else (c, .raised)
+  | .superCall x, c => match sup c with
+    | (nic', none) => ({ c with nic := nic' }, .raised)
+    | (nic', some v) => match x with
+      | none => ({ c with nic := nic' }, .running)
+      | some x => (setLocal { c with nic := nic' } x v, .running)
+  | .retSuper, c => match sup c with
+    | (nic', none) => ({ c with nic := nic' }, .raised)
+    | (nic', some v) => ({ c with nic := nic' }, .returned v)
+
+/-- a method body run to its end in a fresh scope -/
+def runI (sup : IfCtx → IOut) (prog : IStmt) (c : IfCtx) : IOut :=
+  match execI sup prog { c with locals := [] } with
+  | (c', .running) => (c'.nic, some none)
+  | (c', .returned v) => (c'.nic, some v)
+  | (c', .raised) => (c'.nic, none)
+
+/-- `NetworkInterface.enable` / `.disable` (abstract: `pass`) -/
+def absIface (c : IfCtx) : IOut := (c.nic, some none)
+
+/-- does the body call `super()`? -/
+def IStmt.callsSuper : IStmt → Bool
+  | .seq a b => a.callsSuper || b.callsSuper
+  | .ite _ t e => t.callsSuper || e.callsSuper
+  | .superCall _ => true
+  | .retSuper => true
+  | _ => false
+
+/-- the wireless interface needs no link (the model keeps `linked = true` for it) -/
+def Nic.enableNoLink (nodeOn : Bool) (c : Nic) : Nic :=
+  if c.enabled then c else if !nodeOn then c else { c with enabled := true }
+
 end Primaite.Power
